@@ -85,7 +85,19 @@ func main() {
 		return
 	}
 	if *dump != "" {
-		P, err := Load(LoadOpts{Dir: *repo, Tags: "verif", MinPkgs: 1})
+		var ov map[string][]byte
+		if *overlayArg != "" {
+			if parts := strings.SplitN(*overlayArg, "=", 2); len(parts) == 2 {
+				if b, rerr := os.ReadFile(parts[1]); rerr == nil {
+					abs, _ := filepath.Abs(filepath.Join(*repo, parts[0]))
+					ov = map[string][]byte{abs: b}
+				}
+			}
+		}
+		if *patchFile != "" {
+			ov, _ = patchOverlay(*repo, *patchFile)
+		}
+		P, err := Load(LoadOpts{Dir: *repo, Tags: "verif", MinPkgs: 1, Overlay: ov})
 		if err != nil {
 			fmt.Println("load error:", err)
 			os.Exit(2)
